@@ -238,9 +238,12 @@ class TupleNode(Node):
         cls = gettype(self.module_name, self.class_name)
         content = tuple(value.construct() for value in self.children["content"])
 
+        if cls is tuple:
+            return content
         if self.isnamedtuple(cls):
             return cls(*content)
-        return content
+        # any other subclass of tuple takes the items as a single iterable
+        return cls(content)
 
     def isnamedtuple(self, t) -> bool:
         # This is needed since namedtuples need to have the args when
